@@ -4,7 +4,7 @@
    universally quantified parameter [H] of every theorem: nothing is assumed about BLAKE3. *)
 From Coq Require Import List NArith.
 From Echo Require Import Base.Bytes Model.Wal Proofs.WalProofs Proofs.WalProofs2 Proofs.WalProofs4
-  Proofs.WalProofs5.
+  Proofs.WalProofs5 Proofs.WalProofs7.
 Import ListNotations.
 Open Scope N_scope.
 
@@ -101,6 +101,22 @@ Check ack_durable_partial : forall (H : bytes -> N) sid l0 acked inflight k,
       Ok (map rtx_of (acked ++ more), tl) /\
     exists rest, inflight = more ++ rest.
 Print Assumptions ack_durable_partial.
+
+(* recover_idempotent: crash at ANY byte of a valid log, let the writable recovery of the filesystem
+   store repair the segment (truncation rewrite: every kept frame, then every kept commit marker),
+   recover again: exactly the committed transactions with a Clean tail; a second repair is a no-op. *)
+Theorem recover_idempotent : forall (H : bytes -> N) l0 ts k,
+  log_valid H l0 ts -> Forall payload_small (log_recs ts) ->
+  recover_store H (repair H (firstn k (log_bytes H ts))) =
+    Ok (map rtx_of (whole_within (tx_size H) k ts), TClean) /\
+  repair H (repair H (firstn k (log_bytes H ts))) = repair H (firstn k (log_bytes H ts)).
+Proof. exact repair_then_recover. Qed.
+Check recover_idempotent : forall (H : bytes -> N) l0 ts k,
+  log_valid H l0 ts -> Forall payload_small (log_recs ts) ->
+  recover_store H (repair H (firstn k (log_bytes H ts))) =
+    Ok (map rtx_of (whole_within (tx_size H) k ts), TClean) /\
+  repair H (repair H (firstn k (log_bytes H ts))) = repair H (firstn k (log_bytes H ts)).
+Print Assumptions recover_idempotent.
 
 (* The repair (rewrite_filesystem_segments_after_truncation) unlinks the segment and re-appends every
    kept frame followed by every kept commit marker.  Full statement "a process stop at any point of
